@@ -173,3 +173,123 @@ def fold_character(eng, body, text):
         return eng.run(body, [tok])
     except (fdai.TooManyPaths, RecursionError):
         return None
+
+
+# ---- decimal literals: lexical-core's complete integer parser as audited, integer TryFrom by contract ------------------------------
+
+import re as _re
+
+_INTTY = _re.compile(r"[iu](8|16|32|64|128|size)")
+
+
+def m_lexical_parse_int(eng, st, fr, t, name, rname, args):
+    """lexical_core::parse::<T>(text) for integer T as audited on the pinned lexical-core (probed on the real crate when
+    defect F17 was triaged): optional sign (a `-` is an invalid digit for unsigned T), digits only; overflow is recognised
+    from the digit count (more significant digits than T's largest magnitude has) or, at exactly that count, from the
+    wrapped magnitude being below 10^(count-1) - so `356` is returned as 100u8, `75536` as 10000u16, `-896` as -128i8.
+    Floats are not modelled here (the caller's float fallback stays undecided)."""
+    b_ = M._bytes_of(eng, st, args[0])
+    g = [str(x) for x in eng.concrete_gargs(st, t["callee"]) if _INTTY.fullmatch(str(x))]
+    if b_ is None or len(g) != 1:
+        return NotImplemented
+    ty = g[0]
+    lo, hi = fdai._INT_RANGE[ty]
+    bits = (hi - lo + 1).bit_length() - 1
+    txt = bytes(b_)
+    adt, tab = lexical_error_table(eng)
+
+    def err(variant, pos):
+        d = [k for k, n_ in (tab or {}).items() if n_ == variant]
+        return fdai.mk_err(EnumV(adt, variant, d[0] if d else 0, {0: K(pos)}))
+    if not txt:
+        return err("Empty", 0)
+    neg = False
+    i = 0
+    if txt[:1] in (b"+", b"-"):
+        if txt[:1] == b"-":
+            if lo == 0:
+                return err("InvalidDigit", 0)
+            neg = True
+        i = 1
+    if i >= len(txt):
+        return err("Empty", i)
+    j = i
+    while j < len(txt) and 48 <= txt[j] <= 57:
+        j += 1
+    if j < len(txt):
+        return err("InvalidDigit", j) if j > i else err("InvalidDigit", i)
+    sig = txt[i:j].lstrip(b"0") or b"0"
+    mag = int(sig)
+    maxmag = -lo if neg else hi
+    maxd = len(str(max(hi, -lo)))
+    if len(sig) > maxd:
+        return err("Underflow" if neg else "Overflow", j)
+    if mag <= maxmag:
+        return fdai.mk_ok(K(-mag if neg else mag))
+    wrapped = mag % (2 ** bits)
+    if len(sig) == maxd and wrapped >= 10 ** (maxd - 1) and wrapped <= maxmag:
+        return fdai.mk_ok(K(-wrapped if neg else wrapped))   # the audited defect: overflow goes unnoticed
+    return err("Underflow" if neg else "Overflow", j)
+
+
+def m_int_try_from(eng, st, fr, t, name, rname, args):
+    g = [str(x) for x in eng.concrete_gargs(st, t["callee"]) if _INTTY.fullmatch(str(x))]
+    v = eng.resolve(st, args[0])
+    if len(g) != 2 or not isinstance(v, K) or isinstance(v.v, bool):
+        return NotImplemented
+    lo, hi = fdai._INT_RANGE[g[1] if name.endswith("try_into") else g[0]]
+    return fdai.mk_ok(K(v.v)) if lo <= v.v <= hi else fdai.mk_err(SymV("TryFromIntError", "TryFromIntError"))
+
+
+def decimal_engine(config="dflt", unit="scpi"):
+    key = ("decimal", config, unit)
+    if key in _C:
+        return _C[key]
+    P = facts.program(config)
+    u = P.unit(unit)
+
+    def inl(n, r):
+        return r.startswith(("scpi::", "scpi_contrib::")) or n.startswith(("scpi::", "scpi_contrib::")) or (r.startswith("<") and ("parser::" in r or "error::" in r or "scpi1999" in r))
+    ms = M.with_lists(M.FOLD_MODELS)
+    ms["lexical_core::parse"] = m_lexical_parse_int
+    ms["core::convert::TryFrom::try_from"] = m_int_try_from
+    ms["core::convert::TryInto::try_into"] = m_int_try_from
+    eng = fdai.Engine(P, u, inline=inl, models=ms, max_paths=64, max_depth=14, loop_limit=64)
+    _C[key] = eng
+    return eng
+
+
+def fold_decimal(eng, body, text):
+    """outcomes of converting Token::DecimalNumericProgramData(text)"""
+    tok = M.token(eng, "DecimalNumericProgramData", [RefV(Cell(fdai.BytesV(bytes(text)), "digits"))])
+    try:
+        return eng.run(body, [tok])
+    except (fdai.TooManyPaths, RecursionError):
+        return None
+
+
+def nr1_probes(ty):
+    """NR1 texts around the limits of integer type `ty`, including the literals with as many digits as the largest
+    magnitude whose value exceeds it by a multiple of 2^bits (where a wrapping parser goes wrong)"""
+    lo, hi, bits = INTS[ty]
+    vals = {0, 1, 7, hi, hi - 1, hi + 1, hi + 2, lo, lo - 1, 10 ** len(str(hi)) - 1, 10 ** len(str(hi))}
+    d = len(str(hi))
+    for k in (1, 2, 3):
+        for base in (10 ** (d - 1), hi, 10 ** (d - 1) + 1):
+            v = k * 2 ** bits + base
+            if len(str(v)) == d:
+                vals.add(v)
+    if lo < 0:
+        dn = len(str(-lo))
+        vals |= {lo + 1, -1, -(10 ** dn - 1)}
+        for k in (1, 2, 3):
+            for base in (10 ** (dn - 1), -lo):
+                v = k * 2 ** bits + base
+                if len(str(v)) == dn:
+                    vals.add(-v)
+    else:
+        vals |= {-1, -hi}
+    texts = [str(v).encode() for v in sorted(vals)]
+    texts += [b"+7", b"007", b"-0", b"+0"]
+    return [(t, int(t)) for t in texts]
+
